@@ -1,12 +1,13 @@
 /-
 C16 — witnesses: clauses that are false of the current code, refuted on a concrete input of the model
 (mirrored by a `finding:` line in known_findings.txt and a replay on the real implementation in py/props/c16.py):
-(none at present); and regression theorems for the repaired findings (`fixed:` lines), stating the now-correct
+`objr_not_in_structure_tree`; and regression theorems for the repaired findings (`fixed:` lines), stating the now-correct
 behaviour on the input that used to refute the clause: `alpha_state_cache_regression`, `dests_names_sorted_regression`,
 `none_component_regression`, `embedded_files_sorted_regression`.
 -/
 import WpModel.Model.PdfStream
 import WpModel.Model.PdfNames
+import WpModel.Model.PdfUaLinks
 
 namespace Wp.C16.Witness
 open Wp Wp.Pdf
@@ -67,5 +68,17 @@ theorem embedded_files_sorted_regression :
     PdfNames.sortedBy PdfNames.lexLe (PdfNames.embeddedKeys [[97, 65], [97, 40]]) = true ∧
     PdfNames.sortedBy PdfNames.lexLe (PdfNames.embeddedKeysWrittenOrder [[97], [97, 32, 98]]) = false ∧
     PdfNames.sortedBy PdfNames.lexLe (PdfNames.embeddedKeysWrittenOrder [[97, 40], [97, 65]]) = false := by decide
+
+/-- **The object reference of a link annotation is not in the structure tree** (false of the current code; finding
+`objr-not-in-structure-tree`): a page whose marked content is a paragraph and a link to annotation 7.  `pdfua` creates
+the object reference but builds the `/Link` element with `K = [mcid]` only: the reference is a kid of no structure
+element (ISO 32000-1 14.7.4.3), and the `/ParentTree` entry of the annotation's `/StructParent` (1) is that object
+reference itself, not the parent structure element (14.7.4.4). -/
+theorem objr_not_in_structure_tree :
+    (PdfUa.pdfuaLinks [[⟨"P", 0⟩, ⟨"Link", 7⟩]]).objrs = [7] ∧
+    PdfUa.objrIsKid (PdfUa.pdfuaLinks [[⟨"P", 0⟩, ⟨"Link", 7⟩]]) 0 = false ∧
+    (PdfUa.pdfuaLinks [[⟨"P", 0⟩, ⟨"Link", 7⟩]]).nums = [(0, .page), (1, .objr 0)] ∧
+    ((PdfUa.pdfuaLinks [[⟨"P", 0⟩, ⟨"Link", 7⟩]]).nums.all (fun e => e.1 != 1 || PdfUa.entryIsElem e.2)) = false := by
+  decide
 
 end Wp.C16.Witness
